@@ -23,7 +23,7 @@ From Coq Require Import String Ascii ZArith List Bool Lia.
 From BP Require Import Re TotalBase Schema.
 From BPGen Require Import GenC09.
 Import ListNotations.
-Open Scope string_scope.
+Local Open Scope string_scope.
 Open Scope Z_scope.
 
 (* ====================================================================================== *)
@@ -313,7 +313,7 @@ Fixpoint render_ints (zs : list Z) : outcome unit :=
   end.
 
 Definition ints_small (zs : list Z) : bool :=
-  forallb (fun z => Z.abs z <? 10 ^ py_int_max_str_digits) zs.
+  forallb (fun z => Z.abs z <? pow10 py_int_max_str_digits) zs.
 
 Inductive lang : Type := LC | LGo | LPy.
 
